@@ -580,7 +580,8 @@ class Bits:
 
     def _setbits(self, bs: BitsType, length: None = None) -> None:
         bs = Bits._create_from_bitstype(bs)
-        self._bitstore = bs._bitstore
+        # Always take a copy: self may be mutable (property assignment) or bs may be.
+        self._bitstore = bs._bitstore._copy()
 
     def _setp3binary(self, f: float) -> None:
         self._bitstore = bitstore_helpers.p3binary2bitstore(f)
